@@ -21,7 +21,9 @@ def small_tree(rng, version, multi_layers):
     pl = 2 ** exp
     if multi_layers:
         n = rng.randint(2, 5)
-        files = [[f"m{i}" if rng.random() < 0.7 else rng.choice(gen.NAME_POOL) + str(i),
+        names = rng.sample(gen.NAME_POOL, n)
+        names = [x for x in names if x != "source"] + ["src2"]
+        files = [[f"m{i}" if rng.random() < 0.5 else (names[i] if rng.random() < 0.7 else "source/" + names[i]),
                   rng.randint(pl + 1, 3 * pl), rng.randrange(1 << 30)] for i in range(n)]
         if rng.random() < 0.5:
             files.append(["small", rng.randint(0, 200), rng.randrange(1 << 30)])
